@@ -1,15 +1,7 @@
 
-val negb : bool -> bool
-
 type nat =
 | O
 | S of nat
-
-val option_map : ('a1 -> 'a2) -> 'a1 option -> 'a2 option
-
-val fst : ('a1 * 'a2) -> 'a1
-
-val snd : ('a1 * 'a2) -> 'a2
 
 val length : 'a1 list -> nat
 
@@ -17,16 +9,10 @@ val app : 'a1 list -> 'a1 list -> 'a1 list
 
 val add : nat -> nat -> nat
 
-val mul : nat -> nat -> nat
-
 val sub : nat -> nat -> nat
 
 module Nat :
  sig
-  val sub : nat -> nat -> nat
-
-  val eqb : nat -> nat -> bool
-
   val leb : nat -> nat -> bool
 
   val ltb : nat -> nat -> bool
@@ -34,23 +20,13 @@ module Nat :
   val max : nat -> nat -> nat
 
   val min : nat -> nat -> nat
-
-  val divmod : nat -> nat -> nat -> nat -> nat * nat
-
-  val div : nat -> nat -> nat
-
-  val modulo : nat -> nat -> nat
  end
-
-val nth : nat -> 'a1 list -> 'a1 -> 'a1
-
-val rev : 'a1 list -> 'a1 list
-
-val map : ('a1 -> 'a2) -> 'a1 list -> 'a2 list
 
 val firstn : nat -> 'a1 list -> 'a1 list
 
 val skipn : nat -> 'a1 list -> 'a1 list
+
+val repeat : 'a1 -> nat -> 'a1 list
 
 type positive =
 | XI of positive
@@ -111,29 +87,13 @@ module Z :
   val of_N : n -> z
  end
 
-val split_at : z -> z list -> z list -> z list list * z list
-
-val strip_cr : z list -> z list
-
-val records : z -> bool -> z list -> z list list
-
-val fp_init_add : nat
-
-val fp_init_min_pages : nat
-
-val fp_mmap_grow : nat
-
-val fp_read_grow : nat
-
-val fp_eof_read_return : nat
-
-val fp_cr_byte : z
-
-val fp_cr_subtract : nat
-
-val fp_cr_else : nat
-
 val rc_magic_size : nat
+
+val wr_min_progress : nat
+
+val bs_buffer_size : n
+
+val tbs_block_size : n
 
 val rc_magic_gz : z list
 
@@ -152,6 +112,8 @@ type os = { os_src : z list; os_script : outcome list;
 
 val os_trace : os -> (nat * z) list
 
+val os_sink : os -> z list
+
 val os_init : z list -> outcome list -> os
 
 type sysres =
@@ -164,6 +126,8 @@ val granted : outcome -> nat -> nat
 val next_outcome : os -> outcome * outcome list
 
 val sys_read : nat -> os -> sysres * os
+
+val sys_write : z list -> os -> sysres * os
 
 type ioerr =
 | EFuel
@@ -186,6 +150,50 @@ val read_or_eof_loop : nat -> nat -> z list -> os -> z list res * os
 
 val read_or_eof : nat -> os -> z list res * os
 
+val read_or_throw_loop : nat -> nat -> z list -> os -> z list res * os
+
+val read_or_throw : nat -> os -> z list res * os
+
+val write_retry : nat -> z list -> os -> z list res * os
+
+val write_or_throw_loop : nat -> z list -> os -> unit res * os
+
+val write_or_throw : z list -> os -> unit res * os
+
+val sys_pread : nat -> nat -> z list -> os -> sysres * os
+
+val ersatz_pread_loop :
+  nat -> nat -> nat -> z list -> z list -> os -> z list res * os
+
+val ersatz_pread : nat -> nat -> z list -> os -> z list res * os
+
+val overwrite : z list -> nat -> z list -> z list
+
+val sys_pwrite : z list -> nat -> z list -> os -> (sysres * os) * z list
+
+val ersatz_pwrite_loop :
+  nat -> z list -> nat -> z list -> os -> z list res * os
+
+val ersatz_pwrite : z list -> nat -> z list -> os -> z list res * os
+
+type bstream = { bs_buf : z list; bs_cap : nat }
+
+val bs_spill : bstream -> os -> bstream res * os
+
+val bs_write : z list -> bstream -> os -> bstream res * os
+
+val bs_flush : bstream -> os -> bstream res * os
+
+val bs_run : z list list -> bstream -> os -> bstream res * os
+
+val tbs_write : nat -> z list -> z list -> nat -> (z list list * z list) res
+
+val tbs_blocks : z list list -> z list -> nat -> z list list res
+
+val write_blocks : z list list -> os -> unit res * os
+
+val tbs_run : z list list -> nat -> os -> unit res * os
+
 type rcstate =
 | RcHeader of z list
 | RcFd
@@ -200,48 +208,9 @@ val read_factory : os -> rcstate res * os
 
 val rc_read : nat -> rcstate -> os -> (z list res * rcstate) * os
 
-type fp = { fp_buf : z list; fp_pos : nat; fp_cap : nat; fp_at_end : 
-            bool; fp_moff : nat; fp_fallback : bool; fp_mapped : bool;
-            fp_rc : rcstate; fp_os : os; fp_file : z list; fp_page : 
-            nat; fp_maps : (nat * nat) list }
+val rc_read_or_eof_loop :
+  nat -> nat -> z list -> rcstate -> os -> (z list res * rcstate) * os
 
-val fp_os : fp -> os
+val rc_read_or_eof : nat -> rcstate -> os -> (z list res * rcstate) * os
 
-val fp_maps : fp -> (nat * nat) list
-
-val set_pos : fp -> nat -> fp
-
-val initial_cap : nat -> nat -> nat
-
-val read_shift : fp -> fp res
-
-val transition_to_read : fp -> fp res
-
-val mmap_shift : fp -> fp res
-
-val shift : fp -> fp res
-
-val fp_open_read : nat -> os -> fp res
-
-val fp_open_istream : nat -> z list -> fp
-
-val fp_open_file : nat -> nat -> z list -> nat -> outcome list -> fp res
-
-val find_idx : z -> z list -> nat option
-
-type rl =
-| RlLine of z list
-| RlEOF
-| RlFail of ioerr
-
-val read_line_loop : nat -> z -> bool -> nat -> fp -> rl * fp
-
-val pending : fp -> nat
-
-val line_fuel : fp -> nat
-
-val read_line : z -> bool -> fp -> rl * fp
-
-val read_all_loop : nat -> z -> bool -> fp -> z list list res * fp
-
-val read_all : z -> bool -> fp -> z list list res * fp
+val rc_open_read_or_eof : nat -> os -> z list res * os
